@@ -107,13 +107,14 @@ static void hpoly_gen(hpoly *p, int res) {
     p->gp.geoloop.numVerts = n;
     p->gp.geoloop.verts = gen_loop(n, c, rad, &p->hostile_coords);
     int nh = vf_below(R, 3) == 0 ? 1 + (int)vf_below(R, 2) : 0;
+    if (vf_below(R, 10) == 0) nh = 3 + (int)vf_below(R, 30); /* many holes (overlapping or not: any arrangement must be safe) */
     p->gp.numHoles = nh;
     if (nh) {
         p->holes = vf_buf_new((size_t)nh * sizeof(GeoLoop), 0);
         for (int h = 0; h < nh; h++) {
             int hn = vf_below(R, 4) == 0 ? 0 : 3 + (int)vf_below(R, 5);
             p->holes[h].numVerts = hn;
-            p->holes[h].verts = gen_loop(hn, c, rad * 0.3, &p->hostile_coords);
+            p->holes[h].verts = gen_loop(hn, c, nh > 2 ? rad * (0.5 + 0.5 * vf_unit(R)) : rad * 0.3, &p->hostile_coords);
         }
         p->gp.holes = p->holes;
     } else
